@@ -1,6 +1,6 @@
 #!/bin/bash
 # Re-runs every kept seeded defect (/verif/seeded/*) against scratch worktrees of /repo HEAD.
-cd /verif
+cd "$(dirname "$0")/.."
 for d in seeded/*/; do
   p=$(python3 -c "import json,sys; print(json.load(open('$d/meta.json'))['property'])")
   tools/seedeval.sh $p $(realpath $d) ${1:-quick}
